@@ -153,23 +153,70 @@ pub fn build_2d_from_cmap_file<T: CoordsFloat>(
         ));
     }
 
+    let b0 = b0
+        .into_iter()
+        .collect::<Result<Vec<DartIdType>, _>>()
+        .map_err(|_| BuilderError::BadValue("could not parse a b0 value"))?;
+    let b1 = b1
+        .into_iter()
+        .collect::<Result<Vec<DartIdType>, _>>()
+        .map_err(|_| BuilderError::BadValue("could not parse a b1 value"))?;
+    let b2 = b2
+        .into_iter()
+        .collect::<Result<Vec<DartIdType>, _>>()
+        .map_err(|_| BuilderError::BadValue("could not parse a b2 value"))?;
+
+    // the images must describe a 2-map: null dart inert, images in range, b0 inverse of b1,
+    // b2 an involution without fixed point
+    let n = f.meta.2;
+    if b0[0] != 0 || b1[0] != 0 || b2[0] != 0 {
+        return Err(BuilderError::InconsistentData(
+            "the null dart has a non-null image",
+        ));
+    }
+    for d in 1..=n {
+        let (i0, i1, i2) = (b0[d] as usize, b1[d] as usize, b2[d] as usize);
+        if i0 > n || i1 > n || i2 > n {
+            return Err(BuilderError::InconsistentData(
+                "a beta image is not an existing dart",
+            ));
+        }
+        if (i1 != 0 && b0[i1] as usize != d) || (i0 != 0 && b1[i0] as usize != d) {
+            return Err(BuilderError::InconsistentData(
+                "beta 0 is not the inverse of beta 1",
+            ));
+        }
+        if i2 != 0 && (i2 == d || b2[i2] as usize != d) {
+            return Err(BuilderError::InconsistentData(
+                "beta 2 is not an involution without fixed point",
+            ));
+        }
+    }
+
     for (d, b0d, b1d, b2d) in multizip((
         (1..=f.meta.2),
         b0.into_iter().skip(1),
         b1.into_iter().skip(1),
         b2.into_iter().skip(1),
     )) {
-        let b0d = b0d.map_err(|_| BuilderError::BadValue("could not parse a b0 value"))?;
-        let b1d = b1d.map_err(|_| BuilderError::BadValue("could not parse a b1 value"))?;
-        let b2d = b2d.map_err(|_| BuilderError::BadValue("could not parse a b2 value"))?;
         map.set_betas(d as DartIdType, [b0d, b1d, b2d]);
     }
 
     if let Some(unused) = f.unused {
         for u in unused.split_whitespace() {
-            let d = u
+            let d: DartIdType = u
                 .parse()
                 .map_err(|_| BuilderError::BadValue("could not parse an unused ID"))?;
+            if d == 0 || d as usize > n {
+                return Err(BuilderError::InconsistentData(
+                    "an unused ID is not an existing dart",
+                ));
+            }
+            if !map.is_free(d) || map.is_unused(d) {
+                return Err(BuilderError::InconsistentData(
+                    "an unused dart is linked or listed twice",
+                ));
+            }
             map.remove_free_dart(d);
         }
     }
@@ -194,6 +241,11 @@ pub fn build_2d_from_cmap_file<T: CoordsFloat>(
                 .map_err(|_| BuilderError::BadValue("could not parse vertex y coordinate"))?;
             if it.next().is_some() {
                 return Err(BuilderError::BadValue("incorrect vertex line format"));
+            }
+            if id == 0 || id as usize > n {
+                return Err(BuilderError::InconsistentData(
+                    "a vertex ID is not an existing dart",
+                ));
             }
             map.force_write_vertex(id, (T::from(x).unwrap(), T::from(y).unwrap()));
         }
